@@ -10,7 +10,7 @@ import warnings
 import numpy as np
 import xgi
 
-from .. import nets, shapes
+from .. import nets, realq, shapes
 from ..runner import harness
 
 
@@ -235,21 +235,9 @@ def laplacians(ctx, p):
 
 
 def _psd(ctx, L, tag, what):
-    """for every real vector x: x^T L x >= 0 (decided by z3 over the reals on the matrix the
-    library returned, entries taken exactly; tolerance 1e-9 |x|^2 for the float entries)"""
-    n = L.shape[0]
-    if n == 0:
-        return
-    ctx.require(bool(np.allclose(L, L.T)), f"{what} is not symmetric")
-    x = [ctx.real(f"x_{tag}_{i}", -1, 1) for i in range(n)]
-    q = 0
-    nrm = 0
-    for i in range(n):
-        nrm = x[i] * x[i] + nrm
-        for j in range(n):
-            if L[i, j] != 0:
-                q = x[i] * x[j] * float(L[i, j]) + q
-    ctx.require(q >= nrm * (-1e-9), f"{what} is not positive semidefinite (a vector x with x^T L x < 0 exists)")
+    """for every real vector x: x^T L x >= 0, decided by z3 (nlsat) on the matrix the library
+    returned - see vx/realq.py"""
+    realq.require_psd(ctx, L, what)
 
 
 @harness("C12.psd", raises_are_violations=True)
@@ -299,7 +287,7 @@ def spec(tier, seed):
         "units": units,
         "caps": {"paths": 50000, "wall": 900},
         "level": "other",
-        "explanation": "The numeric kernels are scipy/numpy and a symbolic value cannot cross into them, so shapes (all hypergraph incidence structures up to isomorphism within the bound, including isolated nodes, empty/duplicate/singleton edges) and the option grid are enumerated; what z3 quantifies is the labelling - node labels and edge ids are unbounded solver integers, so every statement 'with the returned index maps' is decided for all integer labelings at once (this is where a label-as-position confusion shows) - and the small parameters order, s, weighted, sparse, rescale_per_node, normalized are solver-chosen forks. Oracles are brute-force matrices from the incidence shape. Positive semidefiniteness (C12.psd) is decided by z3 over the reals: the matrix the library returned is taken entry by entry as exact rationals and the query 'exists x with x^T L x < -1e-9 |x|^2' must be unsat (nonlinear real arithmetic, N <= 4 unknowns); a model is a concrete vector, replayed with numpy.",
+        "explanation": "The numeric kernels are scipy/numpy and a symbolic value cannot cross into them, so shapes (all hypergraph incidence structures up to isomorphism within the bound, including isolated nodes, empty/duplicate/singleton edges) and the option grid are enumerated; what z3 quantifies is the labelling - node labels and edge ids are unbounded solver integers, so every statement 'with the returned index maps' is decided for all integer labelings at once (this is where a label-as-position confusion shows) - and the small parameters order, s, weighted, sparse, rescale_per_node, normalized are solver-chosen forks. Oracles are brute-force matrices from the incidence shape. Positive semidefiniteness (C12.psd) is decided by z3 over the reals: the matrix the library returned is taken entry by entry as rationals (denominator <= 1e9) and, for each k, the query 'exists x in [-1,1]^N with x_k = 1 and x^T L x < -1e-6' must be unsat (z3 nlsat, N <= 4 unknowns; the form is homogeneous, so this covers every direction); a model is a concrete vector, re-evaluated with numpy before it is reported.",
         "bounds": {"shapes": f"{len(shp)} shapes", "order": "None, 0..3", "s": "1..3", "laplacian order": "1..3", "multi-order": "orders [1,2,3], weights [1, w, 0.5], w in {1,2}",
                    "histories": "each shape also reached on one object from the complementary incidence after every matrix function ran once (same node and edge counts)"},
         "assumptions": ["labels: unbounded integers", "floats compared with relative tolerance 1e-9"],
